@@ -161,10 +161,14 @@ def make_binders_unique(a: ast.AST) -> ast.AST:
     class rename(ast.NodeTransformer):
         def __init__(self):
             self._stack: List[Tuple[str, str]] = []
+            self._called_with_mapping: set = set()
 
         def visit_Lambda(self, node: ast.Lambda):
+            # (the parameters of a lambda that is called with a `**mapping` keep their names:
+            # the mapping's keys are not ours to rename)
+            keep = id(node) in self._called_with_mapping
             mapping = [
-                (arg.arg, arg_name() if arg.arg in clashing else arg.arg)
+                (arg.arg, arg_name() if arg.arg in clashing and not keep else arg.arg)
                 for arg in _lambda_binders(node.args)
             ]
             # Default values are evaluated outside the lambda
@@ -188,6 +192,8 @@ def make_binders_unique(a: ast.AST) -> ast.AST:
             return ast.Lambda(args=new_args, body=new_body)
 
         def visit_Call(self, node: ast.Call):
+            if isinstance(node.func, ast.Lambda) and any(k.arg is None for k in node.keywords):
+                self._called_with_mapping.add(id(node.func))
             old_names = (
                 [arg.arg for arg in _lambda_binders(node.func.args)]
                 if isinstance(node.func, ast.Lambda)
